@@ -149,7 +149,7 @@ impl Bitstring64 {
 
     /// Smallest finite value.
     pub const MIN: Self = Bitstring64(FixedBinaryBuf::from_le_bytes([
-        255, 252, 243, 207, 63, 255, 248, 247,
+        255, 252, 243, 207, 63, 255, 252, 247,
     ]));
 
     /// Smallest positive normal value.
@@ -158,7 +158,7 @@ impl Bitstring64 {
 
     /// Largest finite value.
     pub const MAX: Self = Bitstring64(FixedBinaryBuf::from_le_bytes([
-        255, 252, 243, 207, 63, 255, 248, 119,
+        255, 252, 243, 207, 63, 255, 252, 119,
     ]));
 
     /// Minimum possible normal power of 10 exponent.
